@@ -2195,6 +2195,11 @@ func (c *RemoteClient) handleMessage(ctx context.Context, m *Message) error {
 		c.addHandlerMessage(ctx, m)
 
 	case *Tx:
+		if !c.accepted.Load().(bool) {
+			logger.Warn(ctx, "Received tx before the connection was accepted")
+			return nil
+		}
+
 		txid := *msg.Tx.TxHash()
 		logger.InfoWithFields(ctx, []logger.Field{
 			logger.Stringer("txid", txid),
@@ -2213,6 +2218,11 @@ func (c *RemoteClient) handleMessage(ctx context.Context, m *Message) error {
 		}
 
 	case *TxUpdate:
+		if !c.accepted.Load().(bool) {
+			logger.Warn(ctx, "Received tx update before the connection was accepted")
+			return nil
+		}
+
 		logger.InfoWithFields(ctx, []logger.Field{
 			logger.Stringer("txid", msg.TxID),
 			logger.Uint64("message_id", msg.ID),
